@@ -72,7 +72,7 @@ func contention() {
 		}},
 	}
 	const G = 64
-	per := r.Pick(5000, 60000)
+	per := r.Pick(3000, 60000)
 	for _, e := range entries {
 		var wrong, refused atomic.Int64
 		var once sync.Once
